@@ -315,6 +315,18 @@ pub fn features_of(files: &[SrcFile], builtins: &BTreeSet<String>) -> Vec<String
     if seen.values().any(|&c| c > 1) {
         feats.insert("duplicate_top_level_name".to_string());
     }
+    // F8/F9: a function whose written return type is a union (`) -> {A, B}`)
+    for f in files {
+        for line in f.text.lines() {
+            if let Some(i) = line.find("->") {
+                let before = line[..i].trim_end();
+                let after = line[i + 2..].trim_start();
+                if before.ends_with(')') && after.starts_with('{') && line.trim_start().starts_with("def ") {
+                    feats.insert("written_union_return_type".to_string());
+                }
+            }
+        }
+    }
     let by_name: BTreeMap<String, &ClassOutline> = classes.iter().map(|c| (c.name.clone(), c)).collect();
     // all member names reachable from a class (own + ancestors), cycle-safe
     fn members_of(name: &str, by: &BTreeMap<String, &ClassOutline>, depth: usize, out: &mut BTreeSet<String>) {
